@@ -38,8 +38,11 @@
 (*     data arrives for an id it no longer knows: class server-recreates-closed-stream of C10); D7 when data and the      *)
 (*     peer's close of the same stream are handled in one drain the callback goroutine (started through gopool) finds    *)
 (*     the stream half-closed and never calls OnData (C20's finding); the opposite order is possible in the code.        *)
-(*  D8 OpenStream on a shut-down session (fixed code) blocks on shutdownLock while the teardown lambda is in progress:      *)
-(*     TryOpen is only enabled outside the teardown.                                                                      *)
+(*  D8 streams that appear late (LateStreams = {L1, L2}, server end with a ListenCallback): the peer opens both, the event  *)
+(*     loop's drain registers L1 and blocks inside the user's OnNewStream(L1) (DrainBegin) - Close may run meanwhile -,   *)
+(*     after NsRelease the same drain delivers L1's data, registers L2 (s.streams is still non-nil: the teardown runs on   *)
+(*     the same goroutine later) and delivers its data (DrainEnd).  L2 is thus registered between Close() and the         *)
+(*     teardown lambda; the lambda takes the table when it RUNS, so it closes L2 as well.                                 *)
 (*  D5 the buffer-manager reference is per end ("held"/"released"); whether the mapping goes away depends on the other    *)
 (*     holders in the same process and is decided by the census of the harness.                                           *)
 (* Constant Atomic = TRUE restricts the scheduler to run every procedure to completion (or until it blocks): these are    *)
@@ -47,6 +50,7 @@
 (* design check over every interleaving of the steps.                                                                     *)
 EXTENDS Integers, Sequences, FiniteSets, TLC
 CONSTANTS Streams, CbStreams, Closers, Atomic, MaxSend, MaxPeerClose, WithAccept, WithFlush,
+          LateStreams,             \* {} or two streams that do not exist at the start (D8)
           FixedOpen, FixedFlush,   \* TRUE = the code after the fix: commits a49166e (OpenStream) and 075bc66 (Flush / alloc)
           MaxOps       \* bound on the number of user / peer operations of one behaviour (the workload length)
 
@@ -75,6 +79,7 @@ VARIABLES shutdown,   \* Session.shutdown
           ws,         \* stream of the writer thread's current call
           tdRuns, nsent, npc,
           nops,       \* user / peer operations so far
+          nsBusy,     \* the event loop is inside the user's OnNewStream (D8)
           lastOpen,   \* OpenStream after shutdown = 1: "none" | "err" | "nilnil"
           lastSend,   \* last Flush: "none" | "ok" | "err" | "fault";  sendLate = it started when shutdown was already 1
           sendLate,
@@ -83,12 +88,16 @@ VARIABLES shutdown,   \* Session.shutdown
 
 vars == <<shutdown, serr, shutCh, pc, ret, lambdas, batch, conn, link, hup, inbox, flag, st, inTable, tableNil, notified,
           cbBusy, waitExit, cbL, cbR, unread, peerClosed, rd, fl, acc, bm, qm, sendLoop, snap, cur, ws, tdRuns, nsent, npc,
-          nops, lastOpen, lastSend, sendLate, openAtDeath, kf>>
+          nops, nsBusy, lastOpen, lastSend, sendLate, openAtDeath, kf>>
+
+L1 == CHOOSE s \in LateStreams : \A t \in LateStreams : s <= t
+L2 == CHOOSE s \in LateStreams : \A t \in LateStreams : s >= t
 
 Init == /\ shutdown = 0 /\ serr = "nil" /\ shutCh = FALSE
         /\ pc = [t \in Threads |-> "idle"] /\ ret = [t \in Threads |-> "idle"]
         /\ lambdas = <<>> /\ batch = <<>> /\ conn = "open" /\ link = "up" /\ hup = FALSE /\ inbox = <<>> /\ flag = 0
-        /\ st = [s \in Streams |-> "open"] /\ inTable = [s \in Streams |-> TRUE] /\ tableNil = FALSE
+        /\ st = [s \in Streams |-> IF s \in LateStreams THEN "none" ELSE "open"]
+        /\ inTable = [s \in Streams |-> s \notin LateStreams] /\ tableNil = FALSE /\ nsBusy = FALSE
         /\ notified = [s \in Streams |-> FALSE] /\ cbBusy = [s \in Streams |-> FALSE]
         /\ waitExit = [s \in Streams |-> FALSE] /\ cbL = [s \in Streams |-> 0] /\ cbR = [s \in Streams |-> 0]
         /\ unread = [s \in Streams |-> 0] /\ peerClosed = [s \in Streams |-> FALSE]
@@ -97,7 +106,7 @@ Init == /\ shutdown = 0 /\ serr = "nil" /\ shutCh = FALSE
         /\ tdRuns = 0 /\ nsent = 0 /\ npc = 0 /\ nops = 0 /\ lastOpen = "none" /\ lastSend = "none" /\ sendLate = FALSE
         /\ openAtDeath = {} /\ kf = {}
 
-Blocked(t) == t = "loop" /\ pc[t] = "t_wait" /\ cbBusy[cur]
+Blocked(t) == t = "loop" /\ ((pc[t] = "t_wait" /\ cbBusy[cur]) \/ (pc[t] = "e_wait" /\ nsBusy))
 Quiet == \A u \in Threads : Idle(pc[u]) \/ Blocked(u)
 Start == Atomic => Quiet
 Step(t) == Atomic => \A u \in Threads \ {t} : Idle(pc[u]) \/ Blocked(u)
@@ -124,30 +133,30 @@ PeerSend(s) == /\ Start /\ Op /\ link = "up" /\ nsent < MaxSend /\ st[s] = "open
                /\ inbox' = Append(inbox, <<"d", s>>) /\ nsent' = nsent + 1
                /\ UNCHANGED <<shutdown, serr, shutCh, pc, ret, lambdas, batch, conn, link, hup, flag, st, inTable, tableNil,
                               notified, cbBusy, waitExit, cbL, cbR, unread, peerClosed, rd, fl, acc, bm, qm, sendLoop, snap,
-                              cur, ws, tdRuns, npc, lastOpen, lastSend, sendLate, openAtDeath, kf>>
+                              cur, ws, tdRuns, npc, lastOpen, lastSend, sendLate, openAtDeath, kf, nsBusy>>
 
 PeerCloseStream(s) == /\ Start /\ Op /\ link = "up" /\ npc < MaxPeerClose /\ ~peerClosed[s] /\ st[s] = "open" /\ shutdown = 0
                       /\ inbox' = Append(inbox, <<"c", s>>) /\ peerClosed' = [peerClosed EXCEPT ![s] = TRUE]
                       /\ npc' = npc + 1
                       /\ UNCHANGED <<shutdown, serr, shutCh, pc, ret, lambdas, batch, conn, link, hup, flag, st, inTable,
                                      tableNil, notified, cbBusy, waitExit, cbL, cbR, unread, rd, fl, acc, bm, qm, sendLoop,
-                                     snap, cur, ws, tdRuns, nsent, lastOpen, lastSend, sendLate, openAtDeath, kf>>
+                                     snap, cur, ws, tdRuns, nsent, lastOpen, lastSend, sendLate, openAtDeath, kf, nsBusy>>
 
 PeerDrain == /\ Start /\ Op /\ link = "up" /\ flag = 1 /\ shutdown = 0 /\ conn = "open" /\ fl # "parked"
              /\ flag' = 0
              /\ UNCHANGED <<shutdown, serr, shutCh, pc, ret, lambdas, batch, conn, link, hup, inbox, st, inTable, tableNil,
                             notified, cbBusy, waitExit, cbL, cbR, unread, peerClosed, rd, fl, acc, bm, qm, sendLoop, snap,
-                            cur, ws, tdRuns, nsent, npc, lastOpen, lastSend, sendLate, openAtDeath, kf>>
+                            cur, ws, tdRuns, nsent, npc, lastOpen, lastSend, sendLate, openAtDeath, kf, nsBusy>>
 
 PeerDies == /\ Start /\ link = "up"
             /\ link' = "down" /\ hup' = (conn # "closed")
             /\ UNCHANGED <<shutdown, serr, shutCh, pc, ret, lambdas, batch, conn, inbox, flag, st, inTable, tableNil,
                            notified, cbBusy, waitExit, cbL, cbR, unread, peerClosed, rd, fl, acc, bm, qm, sendLoop, snap,
-                           cur, ws, tdRuns, nsent, npc, lastOpen, lastSend, sendLate, openAtDeath, kf, nops>>
+                           cur, ws, tdRuns, nsent, npc, lastOpen, lastSend, sendLate, openAtDeath, kf, nops, nsBusy>>
 
 -----------------------------------------------------------------------------
 \* pending calls of the user
-ParkRead(s) == /\ Start /\ Op /\ s \notin CbStreams /\ rd[s] = "idle"
+ParkRead(s) == /\ Start /\ Op /\ s \notin CbStreams /\ rd[s] = "idle" /\ st[s] # "none"
                /\ IF unread[s] > 0
                     THEN rd' = [rd EXCEPT ![s] = "data"] /\ unread' = [unread EXCEPT ![s] = @ - 1]
                     ELSE /\ unread' = unread
@@ -155,20 +164,20 @@ ParkRead(s) == /\ Start /\ Op /\ s \notin CbStreams /\ rd[s] = "idle"
                                                     ELSE IF st[s] = "closed" \/ notified[s] THEN "closed" ELSE "parked"]
                /\ UNCHANGED <<shutdown, serr, shutCh, pc, ret, lambdas, batch, conn, link, hup, inbox, flag, st, inTable,
                               tableNil, notified, cbBusy, waitExit, cbL, cbR, peerClosed, fl, acc, bm, qm, sendLoop, snap,
-                              cur, ws, tdRuns, nsent, npc, lastOpen, lastSend, sendLate, openAtDeath, kf>>
+                              cur, ws, tdRuns, nsent, npc, lastOpen, lastSend, sendLate, openAtDeath, kf, nsBusy>>
 
 ParkAccept == /\ Start /\ Op /\ WithAccept /\ acc = "idle"
               /\ acc' = IF shutCh THEN "err" ELSE "parked"
               /\ UNCHANGED <<shutdown, serr, shutCh, pc, ret, lambdas, batch, conn, link, hup, inbox, flag, st, inTable,
                              tableNil, notified, cbBusy, waitExit, cbL, cbR, unread, peerClosed, rd, fl, bm, qm, sendLoop,
-                             snap, cur, ws, tdRuns, nsent, npc, lastOpen, lastSend, sendLate, openAtDeath, kf>>
+                             snap, cur, ws, tdRuns, nsent, npc, lastOpen, lastSend, sendLate, openAtDeath, kf, nsBusy>>
 
 \* a fallback Flush large enough to fill the socket (the peer is not reading): the send loop blocks on EAGAIN
 ParkFlush == /\ Start /\ Op /\ WithFlush /\ fl = "idle" /\ shutdown = 0 /\ conn = "open" /\ link = "up"
              /\ fl' = "parked"
              /\ UNCHANGED <<shutdown, serr, shutCh, pc, ret, lambdas, batch, conn, link, hup, inbox, flag, st, inTable,
                             tableNil, notified, cbBusy, waitExit, cbL, cbR, unread, peerClosed, rd, acc, bm, qm, sendLoop,
-                            snap, cur, ws, tdRuns, nsent, npc, lastOpen, lastSend, sendLate, openAtDeath, kf>>
+                            snap, cur, ws, tdRuns, nsent, npc, lastOpen, lastSend, sendLate, openAtDeath, kf, nsBusy>>
 
 \* OnData returns (D2, D3)
 CbRelease(s) ==
@@ -182,20 +191,20 @@ CbRelease(s) ==
               /\ UNCHANGED <<st, inTable, notified, cbR, cbL, rd, kf>>
     /\ UNCHANGED <<shutdown, serr, shutCh, pc, ret, lambdas, batch, conn, link, hup, inbox, flag, tableNil, waitExit,
                    peerClosed, fl, acc, bm, qm, sendLoop, snap, cur, ws, tdRuns, nsent, npc, lastOpen, lastSend, sendLate,
-                   openAtDeath, nops>>
+                   openAtDeath, nops, nsBusy>>
 
 \* OpenStream once the session is shut down: reads shutdownErr under shutdownLock and falls back to ErrSessionShutdown
 \* while Close is between its CAS and the store of shutdownErr (fix a49166e; before it the result was (nil, nil)).
 \* FixedOpen = FALSE models the code before the fix (regression lead: ErrorKnown is then violated).
-\* D8: the fixed OpenStream takes shutdownLock, which the teardown lambda holds from its first to its last step - also
-\* while it waits for a running callback: the call returns only when the teardown is not in progress.
+\* (a49166e made OpenStream take shutdownLock, which the teardown lambda holds also while it waits for a running callback;
+\* f060076 removed the lock again: TryOpen is enabled in every state with shutdown = 1)
 InTeardown == pc["loop"] \in {"t_conn", "t_table", "t_stream", "t_wait", "t_bm", "t_q"}
-TryOpen == /\ Start /\ Op /\ shutdown = 1 /\ lastOpen = "none" /\ (FixedOpen => ~InTeardown)
+TryOpen == /\ Start /\ Op /\ shutdown = 1 /\ lastOpen = "none"
            /\ lastOpen' = IF serr = "nil" /\ ~FixedOpen THEN "nilnil" ELSE "err"
            /\ kf' = IF serr = "nil" /\ ~FixedOpen THEN kf \cup {"open-nil-nil"} ELSE kf
            /\ UNCHANGED <<shutdown, serr, shutCh, pc, ret, lambdas, batch, conn, link, hup, inbox, flag, st, inTable,
                           tableNil, notified, cbBusy, waitExit, cbL, cbR, unread, peerClosed, rd, fl, acc, bm, qm, sendLoop,
-                          snap, cur, ws, tdRuns, nsent, npc, lastSend, sendLate, openAtDeath>>
+                          snap, cur, ws, tdRuns, nsent, npc, lastSend, sendLate, openAtDeath, nsBusy>>
 
 -----------------------------------------------------------------------------
 \* Session.Close, one action per step, thread t
@@ -203,14 +212,14 @@ CloseCall(c) == /\ Start /\ c \in Closers /\ pc[c] = "idle"
                 /\ pc' = [pc EXCEPT ![c] = "c_cas"] /\ ret' = [ret EXCEPT ![c] = "done"]
                 /\ UNCHANGED <<shutdown, serr, shutCh, lambdas, batch, conn, link, hup, inbox, flag, st, inTable, tableNil,
                                notified, cbBusy, waitExit, cbL, cbR, unread, peerClosed, rd, fl, acc, bm, qm, sendLoop,
-                               snap, cur, ws, tdRuns, nsent, npc, lastOpen, lastSend, sendLate, openAtDeath, kf, nops>>
+                               snap, cur, ws, tdRuns, nsent, npc, lastOpen, lastSend, sendLate, openAtDeath, kf, nops, nsBusy>>
 
 ExitSetErr(t) == /\ Step(t) /\ pc[t] = "x_err"
                  /\ serr' = IF serr = "nil" THEN "reset" ELSE serr
                  /\ pc' = [pc EXCEPT ![t] = "c_cas"]
                  /\ UNCHANGED <<shutdown, shutCh, ret, lambdas, batch, conn, link, hup, inbox, flag, st, inTable, tableNil,
                                 notified, cbBusy, waitExit, cbL, cbR, unread, peerClosed, rd, fl, acc, bm, qm, sendLoop,
-                                snap, cur, ws, tdRuns, nsent, npc, lastOpen, lastSend, sendLate, openAtDeath, kf, nops>>
+                                snap, cur, ws, tdRuns, nsent, npc, lastOpen, lastSend, sendLate, openAtDeath, kf, nops, nsBusy>>
 
 CloseCAS(t) == /\ Step(t) /\ pc[t] = "c_cas"
                /\ IF shutdown = 0
@@ -219,14 +228,14 @@ CloseCAS(t) == /\ Step(t) /\ pc[t] = "c_cas"
                     ELSE /\ pc' = [pc EXCEPT ![t] = ret[t]] /\ UNCHANGED <<shutdown, openAtDeath>>
                /\ UNCHANGED <<serr, shutCh, ret, lambdas, batch, conn, link, hup, inbox, flag, st, inTable, tableNil,
                               notified, cbBusy, waitExit, cbL, cbR, unread, peerClosed, rd, fl, acc, bm, qm, sendLoop, snap,
-                              cur, ws, tdRuns, nsent, npc, lastOpen, lastSend, sendLate, kf, nops>>
+                              cur, ws, tdRuns, nsent, npc, lastOpen, lastSend, sendLate, kf, nops, nsBusy>>
 
 CloseErr(t) == /\ Step(t) /\ pc[t] = "c_err"
                /\ serr' = IF serr = "nil" THEN "user" ELSE serr
                /\ pc' = [pc EXCEPT ![t] = "c_notify"]
                /\ UNCHANGED <<shutdown, shutCh, ret, lambdas, batch, conn, link, hup, inbox, flag, st, inTable, tableNil,
                               notified, cbBusy, waitExit, cbL, cbR, unread, peerClosed, rd, fl, acc, bm, qm, sendLoop, snap,
-                              cur, ws, tdRuns, nsent, npc, lastOpen, lastSend, sendLate, openAtDeath, kf, nops>>
+                              cur, ws, tdRuns, nsent, npc, lastOpen, lastSend, sendLate, openAtDeath, kf, nops, nsBusy>>
 
 CloseNotify(t) == /\ Step(t) /\ pc[t] = "c_notify"
                   /\ notified' = [s \in Streams |-> notified[s] \/ (inTable[s] /\ ~tableNil)]
@@ -234,7 +243,7 @@ CloseNotify(t) == /\ Step(t) /\ pc[t] = "c_notify"
                   /\ pc' = [pc EXCEPT ![t] = "c_chan"]
                   /\ UNCHANGED <<shutdown, serr, shutCh, ret, lambdas, batch, conn, link, hup, inbox, flag, st, inTable,
                                  tableNil, cbBusy, waitExit, cbL, cbR, unread, peerClosed, fl, acc, bm, qm, sendLoop, snap,
-                                 cur, ws, tdRuns, nsent, npc, lastOpen, lastSend, sendLate, openAtDeath, kf, nops>>
+                                 cur, ws, tdRuns, nsent, npc, lastOpen, lastSend, sendLate, openAtDeath, kf, nops, nsBusy>>
 
 CloseChan(t) == /\ Step(t) /\ pc[t] = "c_chan"
                 /\ shutCh' = TRUE /\ sendLoop' = IF fl = "parked" /\ conn = "open" THEN sendLoop ELSE "exit"
@@ -243,14 +252,14 @@ CloseChan(t) == /\ Step(t) /\ pc[t] = "c_chan"
                 /\ pc' = [pc EXCEPT ![t] = "c_post"]
                 /\ UNCHANGED <<shutdown, serr, ret, lambdas, batch, conn, link, hup, inbox, flag, st, inTable, tableNil,
                                notified, cbBusy, waitExit, cbL, cbR, unread, peerClosed, rd, bm, qm, snap, cur, ws,
-                               tdRuns, nsent, npc, lastOpen, lastSend, sendLate, openAtDeath, kf, nops>>
+                               tdRuns, nsent, npc, lastOpen, lastSend, sendLate, openAtDeath, kf, nops, nsBusy>>
 
 ClosePost(t) == /\ Step(t) /\ pc[t] = "c_post"
                 /\ lambdas' = Append(lambdas, "teardown")
                 /\ pc' = [pc EXCEPT ![t] = ret[t]]
                 /\ UNCHANGED <<shutdown, serr, shutCh, ret, batch, conn, link, hup, inbox, flag, st, inTable, tableNil,
                                notified, cbBusy, waitExit, cbL, cbR, unread, peerClosed, rd, fl, acc, bm, qm, sendLoop,
-                               snap, cur, ws, tdRuns, nsent, npc, lastOpen, lastSend, sendLate, openAtDeath, kf, nops>>
+                               snap, cur, ws, tdRuns, nsent, npc, lastOpen, lastSend, sendLate, openAtDeath, kf, nops, nsBusy>>
 
 \* connEventHandler.deferredClose: wakes a writer blocked on EAGAIN, posts the descriptor close
 DeferredCloseVars == IF conn = "open"
@@ -297,20 +306,20 @@ Events == /\ Start /\ pc["loop"] = "idle" /\ conn # "closed" /\ (hup \/ inbox # 
                                  /\ cbBusy' = [s \in Streams |-> cbBusy[s] \/ (S.start[s] /\ S.st[s] = "open")]
           /\ UNCHANGED <<shutdown, serr, shutCh, lambdas, batch, conn, link, flag, inTable, tableNil, waitExit, cbL,
                          peerClosed, fl, acc, bm, qm, sendLoop, snap, cur, ws, tdRuns, nsent, npc, lastOpen, lastSend,
-                         sendLate, openAtDeath, kf, nops>>
+                         sendLate, openAtDeath, kf, nops, nsBusy>>
 
 DeferredClose == /\ Step("loop") /\ pc["loop"] = "dc"
                  /\ DeferredCloseVars
                  /\ pc' = [pc EXCEPT !["loop"] = "idle"]
                  /\ UNCHANGED <<shutdown, serr, shutCh, ret, batch, link, hup, inbox, flag, st, inTable, tableNil, notified,
                                 cbBusy, waitExit, cbL, cbR, unread, peerClosed, rd, acc, bm, qm, snap, cur, ws, tdRuns,
-                                nsent, npc, lastOpen, lastSend, sendLate, openAtDeath, kf, nops>>
+                                nsent, npc, lastOpen, lastSend, sendLate, openAtDeath, kf, nops, nsBusy>>
 
 Lambdas == /\ Start /\ pc["loop"] = "idle" /\ lambdas # <<>>
            /\ batch' = lambdas /\ lambdas' = <<>> /\ pc' = [pc EXCEPT !["loop"] = "l_next"]
            /\ UNCHANGED <<shutdown, serr, shutCh, ret, conn, link, hup, inbox, flag, st, inTable, tableNil, notified, cbBusy,
                           waitExit, cbL, cbR, unread, peerClosed, rd, fl, acc, bm, qm, sendLoop, snap, cur, ws, tdRuns,
-                          nsent, npc, lastOpen, lastSend, sendLate, openAtDeath, kf, nops>>
+                          nsent, npc, lastOpen, lastSend, sendLate, openAtDeath, kf, nops, nsBusy>>
 
 LNext == /\ Step("loop") /\ pc["loop"] = "l_next"
          /\ IF batch = <<>>
@@ -321,14 +330,14 @@ LNext == /\ Step("loop") /\ pc["loop"] = "l_next"
                         ELSE pc' = pc /\ conn' = "closed"
          /\ UNCHANGED <<shutdown, serr, shutCh, ret, lambdas, link, hup, inbox, flag, st, inTable, tableNil, notified,
                         cbBusy, waitExit, cbL, cbR, unread, peerClosed, rd, fl, acc, bm, qm, sendLoop, snap, cur, ws, tdRuns,
-                        nsent, npc, lastOpen, lastSend, sendLate, openAtDeath, kf, nops>>
+                        nsent, npc, lastOpen, lastSend, sendLate, openAtDeath, kf, nops, nsBusy>>
 
 TdConn == /\ Step("loop") /\ pc["loop"] = "t_conn"
           /\ DeferredCloseVars
           /\ pc' = [pc EXCEPT !["loop"] = "t_table"]
           /\ UNCHANGED <<shutdown, serr, shutCh, ret, batch, link, hup, inbox, flag, st, inTable, tableNil, notified, cbBusy,
                          waitExit, cbL, cbR, unread, peerClosed, rd, acc, bm, qm, snap, cur, ws, tdRuns, nsent, npc,
-                         lastOpen, lastSend, sendLate, openAtDeath, kf, nops>>
+                         lastOpen, lastSend, sendLate, openAtDeath, kf, nops, nsBusy>>
 
 TdTable == /\ Step("loop") /\ pc["loop"] = "t_table"
            /\ snap' = IF tableNil THEN {} ELSE {s \in Streams : inTable[s]}
@@ -336,7 +345,7 @@ TdTable == /\ Step("loop") /\ pc["loop"] = "t_table"
            /\ pc' = [pc EXCEPT !["loop"] = "t_stream"]
            /\ UNCHANGED <<shutdown, serr, shutCh, ret, lambdas, batch, conn, link, hup, inbox, flag, st, inTable, notified,
                           cbBusy, waitExit, cbL, cbR, unread, peerClosed, rd, fl, acc, bm, qm, sendLoop, cur, ws, tdRuns,
-                          nsent, npc, lastOpen, lastSend, sendLate, openAtDeath, kf, nops>>
+                          nsent, npc, lastOpen, lastSend, sendLate, openAtDeath, kf, nops, nsBusy>>
 
 \* Stream.Close() called by the teardown for one stream of the snapshot, then asyncGoroutineWg.Wait()
 TdStream == /\ Step("loop") /\ pc["loop"] = "t_stream"
@@ -355,32 +364,32 @@ TdStream == /\ Step("loop") /\ pc["loop"] = "t_stream"
                                   ELSE CloseStreamVars(s, TRUE)
             /\ UNCHANGED <<shutdown, serr, shutCh, ret, lambdas, batch, conn, link, hup, inbox, flag, tableNil, cbBusy,
                            peerClosed, fl, acc, bm, qm, sendLoop, ws, tdRuns, nsent, npc, lastOpen, lastSend, sendLate,
-                           openAtDeath, kf, nops>>
+                           openAtDeath, kf, nops, nsBusy>>
 
 TdWait == /\ Step("loop") /\ pc["loop"] = "t_wait" /\ ~cbBusy[cur]
           /\ pc' = [pc EXCEPT !["loop"] = "t_stream"]
           /\ UNCHANGED <<shutdown, serr, shutCh, ret, lambdas, batch, conn, link, hup, inbox, flag, st, inTable, tableNil,
                          notified, cbBusy, waitExit, cbL, cbR, unread, peerClosed, rd, fl, acc, bm, qm, sendLoop, snap, cur,
-                         ws, tdRuns, nsent, npc, lastOpen, lastSend, sendLate, openAtDeath, kf, nops>>
+                         ws, tdRuns, nsent, npc, lastOpen, lastSend, sendLate, openAtDeath, kf, nops, nsBusy>>
 
 TdBm == /\ Step("loop") /\ pc["loop"] = "t_bm"
         /\ bm' = "released" /\ pc' = [pc EXCEPT !["loop"] = "t_q"]
         /\ UNCHANGED <<shutdown, serr, shutCh, ret, lambdas, batch, conn, link, hup, inbox, flag, st, inTable, tableNil,
                        notified, cbBusy, waitExit, cbL, cbR, unread, peerClosed, rd, fl, acc, qm, sendLoop, snap, cur, ws,
-                       tdRuns, nsent, npc, lastOpen, lastSend, sendLate, openAtDeath, kf, nops>>
+                       tdRuns, nsent, npc, lastOpen, lastSend, sendLate, openAtDeath, kf, nops, nsBusy>>
 
 TdQueue == /\ Step("loop") /\ pc["loop"] = "t_q"
            /\ qm' = "unmapped" /\ tdRuns' = tdRuns + 1 /\ pc' = [pc EXCEPT !["loop"] = "l_next"]
            /\ UNCHANGED <<shutdown, serr, shutCh, ret, lambdas, batch, conn, link, hup, inbox, flag, st, inTable, tableNil,
                           notified, cbBusy, waitExit, cbL, cbR, unread, peerClosed, rd, fl, acc, bm, sendLoop, snap, cur, ws,
-                          nsent, npc, lastOpen, lastSend, sendLate, openAtDeath, kf, nops>>
+                          nsent, npc, lastOpen, lastSend, sendLate, openAtDeath, kf, nops, nsBusy>>
 
 -----------------------------------------------------------------------------
 \* the writer thread "w": Stream.Flush of one message through shared memory, and Stream.Close by the user
 \* Since 075bc66 Flush fails with ErrStreamClosed when the stream is not open OR the session is closed (written data is
 \* given back), and a BufferWriter write on a closed session allocates from the heap instead of the (unmapped) shared memory.
 \* FixedFlush = FALSE models the code before: the write after the teardown faults, a Flush in the window succeeds.
-SendCheck(s) == /\ Start /\ Op /\ pc["w"] = "idle" /\ s \notin CbStreams
+SendCheck(s) == /\ Start /\ Op /\ pc["w"] = "idle" /\ s \notin CbStreams /\ st[s] # "none"
                 /\ ws' = s /\ sendLate' = (shutdown = 1)
                 /\ IF bm = "released" /\ ~FixedFlush
                      THEN pc' = pc /\ lastSend' = "fault" /\ kf' = kf \cup {"write-after-teardown-faults"}
@@ -390,7 +399,7 @@ SendCheck(s) == /\ Start /\ Op /\ pc["w"] = "idle" /\ s \notin CbStreams
                                ELSE pc' = pc /\ lastSend' = "err"
                 /\ UNCHANGED <<shutdown, serr, shutCh, ret, lambdas, batch, conn, link, hup, inbox, flag, st, inTable,
                                tableNil, notified, cbBusy, waitExit, cbL, cbR, unread, peerClosed, rd, fl, acc, bm, qm,
-                               sendLoop, snap, cur, tdRuns, nsent, npc, lastOpen, openAtDeath>>
+                               sendLoop, snap, cur, tdRuns, nsent, npc, lastOpen, openAtDeath, nsBusy>>
 
 \* queue put + wakeUpPeer.  A write on a connection that is closing / whose peer is gone fails: exitErr from this goroutine
 \* (while the send loop sits in a blocked fallback write it holds `writing`: the polling event is only queued on sendCh)
@@ -409,9 +418,10 @@ SendPut == /\ Step("w") /\ pc["w"] = "s_put"
                           ELSE pc' = [pc EXCEPT !["w"] = "idle"] /\ UNCHANGED <<flag, ret>>
            /\ UNCHANGED <<shutdown, serr, shutCh, lambdas, batch, conn, link, hup, inbox, st, inTable, tableNil, notified,
                           cbBusy, waitExit, cbL, cbR, unread, peerClosed, rd, fl, acc, bm, qm, sendLoop, snap, cur, ws,
-                          tdRuns, nsent, npc, lastOpen, sendLate, openAtDeath, nops>>
+                          tdRuns, nsent, npc, lastOpen, sendLate, openAtDeath, nops, nsBusy>>
 
-StreamClose(s) == /\ Start /\ Op /\ pc["w"] = "idle" /\ st[s] # "closed" /\ ~cbBusy[s]
+StreamClose(s) == /\ Start /\ Op /\ pc["w"] = "idle" /\ st[s] \notin {"closed", "none"} /\ ~cbBusy[s]
+                  /\ ~(pc["loop"] = "e_wait" /\ s = L1)      \* (D6: its data is still in the drain)
                   /\ ~\E i \in 1..Len(inbox) : inbox[i] = <<"d", s>>
                   /\ ws' = s
                   /\ waitExit' = [waitExit EXCEPT ![s] = @ \/ s \in CbStreams]
@@ -424,14 +434,38 @@ StreamClose(s) == /\ Start /\ Op /\ pc["w"] = "idle" /\ st[s] # "closed" /\ ~cbB
                        ELSE UNCHANGED <<flag, pc, ret>>
                   /\ UNCHANGED <<shutdown, serr, shutCh, lambdas, batch, conn, link, hup, inbox, tableNil, cbBusy, peerClosed,
                                  fl, acc, bm, qm, sendLoop, snap, cur, tdRuns, nsent, npc, lastOpen, lastSend, sendLate,
-                                 openAtDeath, kf>>
+                                 openAtDeath, kf, nsBusy>>
 
 -----------------------------------------------------------------------------
+\* late streams (D8)
+DrainBegin == /\ Start /\ Op /\ LateStreams # {} /\ pc["loop"] = "idle" /\ shutdown = 0 /\ conn = "open" /\ link = "up"
+              /\ ~hup /\ inbox = <<>> /\ st[L1] = "none" /\ fl # "parked"
+              /\ st' = [st EXCEPT ![L1] = "open"] /\ inTable' = [inTable EXCEPT ![L1] = TRUE]
+              /\ nsBusy' = TRUE /\ pc' = [pc EXCEPT !["loop"] = "e_wait"]
+              /\ UNCHANGED <<shutdown, serr, shutCh, ret, lambdas, batch, conn, link, hup, inbox, flag, tableNil, notified, cbBusy,
+                             waitExit, cbL, cbR, unread, peerClosed, rd, fl, acc, bm, qm, sendLoop, snap, cur, ws, tdRuns, nsent,
+                             npc, lastOpen, lastSend, sendLate, openAtDeath, kf>>
+
+NsRelease == /\ Start /\ nsBusy /\ nsBusy' = FALSE
+             /\ UNCHANGED <<shutdown, serr, shutCh, pc, ret, lambdas, batch, conn, link, hup, inbox, flag, st, inTable, tableNil,
+                            notified, cbBusy, waitExit, cbL, cbR, unread, peerClosed, rd, fl, acc, bm, qm, sendLoop, snap, cur, ws,
+                            tdRuns, nsent, npc, nops, lastOpen, lastSend, sendLate, openAtDeath, kf>>
+
+\* the rest of the same handlePolling drain: L1's data, then the element of L2: getStream registers it whatever `shutdown` is
+DrainEnd == /\ Step("loop") /\ pc["loop"] = "e_wait" /\ ~nsBusy
+            /\ st' = [st EXCEPT ![L2] = "open"] /\ inTable' = [inTable EXCEPT ![L2] = TRUE]
+            /\ rd' = [rd EXCEPT ![L1] = IF @ = "parked" THEN "data" ELSE @]
+            /\ unread' = [unread EXCEPT ![L1] = IF rd[L1] = "parked" \/ st[L1] = "closed" THEN @ ELSE @ + 1, ![L2] = @ + 1]
+            /\ pc' = [pc EXCEPT !["loop"] = "idle"]
+            /\ UNCHANGED <<shutdown, serr, shutCh, ret, lambdas, batch, conn, link, hup, inbox, flag, tableNil, notified, cbBusy,
+                           waitExit, cbL, cbR, peerClosed, fl, acc, bm, qm, sendLoop, snap, cur, ws, tdRuns, nsent, npc, nops,
+                           nsBusy, lastOpen, lastSend, sendLate, openAtDeath, kf>>
+
 ThreadStep(t) == ExitSetErr(t) \/ CloseCAS(t) \/ CloseErr(t) \/ CloseNotify(t) \/ CloseChan(t) \/ ClosePost(t)
-LoopStep == DeferredClose \/ LNext \/ TdConn \/ TdTable \/ TdStream \/ TdWait \/ TdBm \/ TdQueue
+LoopStep == DrainEnd \/ DeferredClose \/ LNext \/ TdConn \/ TdTable \/ TdStream \/ TdWait \/ TdBm \/ TdQueue
 
 Next == \/ \E s \in Streams : PeerSend(s) \/ PeerCloseStream(s) \/ ParkRead(s) \/ CbRelease(s) \/ SendCheck(s) \/ StreamClose(s)
-        \/ PeerDrain \/ PeerDies \/ ParkAccept \/ ParkFlush \/ TryOpen
+        \/ PeerDrain \/ PeerDies \/ ParkAccept \/ ParkFlush \/ TryOpen \/ DrainBegin \/ NsRelease
         \/ \E c \in Closers : CloseCall(c)
         \/ \E t \in Threads : ThreadStep(t)
         \/ Events \/ Lambdas \/ LoopStep \/ SendPut
@@ -439,13 +473,14 @@ Next == \/ \E s \in Streams : PeerSend(s) \/ PeerCloseStream(s) \/ ParkRead(s) \
 Fair == /\ \A t \in Threads : WF_vars(ThreadStep(t))
         /\ WF_vars(Events) /\ WF_vars(Lambdas) /\ WF_vars(LoopStep) /\ WF_vars(SendPut)
         /\ \A s \in Streams : WF_vars(CbRelease(s))
+        /\ WF_vars(NsRelease)
 
 Spec == Init /\ [][Next]_vars /\ Fair
 
 -----------------------------------------------------------------------------
 \* properties (C14)
 TypeOK == /\ shutdown \in {0, 1} /\ serr \in {"nil", "user", "reset"} /\ conn \in {"open", "closing", "closed"}
-          /\ \A s \in Streams : st[s] \in {"open", "half", "closed"} /\ rd[s] \in {"idle", "parked", "data", "eos", "closed"}
+          /\ \A s \in Streams : st[s] \in {"none", "open", "half", "closed"} /\ rd[s] \in {"idle", "parked", "data", "eos", "closed"}
           /\ tdRuns \in 0..2 /\ bm \in {"held", "released"} /\ qm \in {"mapped", "unmapped"}
 
 \* the teardown has run and nothing is in progress
@@ -471,7 +506,8 @@ CallbackExactlyOnce == Final => \A s \in CbStreams : cbL[s] + cbR[s] = 1
 TeardownOnce == tdRuns <= 1
 \* everything is released once the end is closed
 AllReleased == Final => /\ conn = "closed" /\ bm = "released" /\ qm = "unmapped" /\ tableNil /\ sendLoop = "exit"
-                        /\ \A s \in Streams : st[s] = "closed" /\ unread[s] = 0
+                        \* every stream that ever existed - also one registered between Close() and the teardown - is closed
+                        /\ \A s \in Streams : st[s] \in {"closed", "none"} /\ unread[s] = 0 /\ (st[s] = "closed" => notified[s])
 \* no stream operation touches the queue after it is unmapped, resources are only released by the teardown
 UnmapOnlyAtEnd == (qm = "unmapped" \/ bm = "released") => (shutdown = 1 /\ tableNil)
 
